@@ -19,10 +19,10 @@ confirm)
   (cd "$WT" && go test -vet=off -count=1 "$@" > "$WT/.without.log" 2>&1); r0=$?
   (cd "$WT" && git apply "$sd/patch.diff" && go build ./... ) > "$WT/.build.log" 2>&1; rb=$?
   (cd "$WT" && go test -vet=off -count=1 "$@" > "$WT/.with.log" 2>&1); r1=$?
-  echo "confirm $(basename "$sd"): without rc=$r0 (want 0)  build rc=$rb (want 0)  with rc=$r1 (want !=0)"
   [ $r0 -ne 0 ] && tail -15 "$WT/.without.log"
   [ $rb -ne 0 ] && tail -15 "$WT/.build.log"
-  tail -8 "$WT/.with.log" | cut -c1-300
+  grep -E "^\s+\S+_test.go:|^--- FAIL|^FAIL|^ok" "$WT/.with.log" | head -6 | cut -c1-300
+  echo "CONFIRM $(basename "$(dirname "$sd")")/$(basename "$sd"): without rc=$r0 (want 0)  build rc=$rb (want 0)  with rc=$r1 (want !=0)"
   git -C /repo worktree remove --force "$WT"
   ;;
 suite)
